@@ -5,7 +5,7 @@
 From Coq Require Import List NArith ZArith Bool Permutation.
 Import ListNotations.
 Require Import Verif.Lib.Wire Verif.Gen.Facts_C18 Verif.Model.C18.
-Require Import Verif.Proofs.C18_kahn Verif.Proofs.C18_build Verif.Proofs.C18.
+Require Import Verif.Proofs.C18_kahn Verif.Proofs.C18_build Verif.Proofs.C18 Verif.Proofs.C18_rep Verif.Proofs.C18_cycle.
 
 (* the emission loop never runs out of fuel and never looks up a deleted node *)
 Theorem C18_sorted_total : forall s, sorted s <> Internal.
@@ -53,8 +53,7 @@ Proof. exact cyclic_error_state. Qed.
 Print Assumptions C18_cycle_is_error.
 
 (* direction =>, certificate form: the reported dictionary is a non-empty set of
-   nodes each having a predecessor inside the set along a present constraint
-   (the pigeonhole step "hence a cycle exists" is TODO (unproved)) *)
+   nodes each having a predecessor inside the set along a present constraint *)
 Theorem C18_cycle_error_certificate : forall s l,
   sorted s = Cyclic l ->
   l <> [] /\ forall k, In k (map fst l) -> exists a, In (a, k) (parcs s) /\ In a (map fst l).
@@ -134,3 +133,44 @@ Theorem C18_sorted_perm_ops : forall c ops l,
   Permutation (map fst l) (dnames (decls_of c ops)) /\ NoDup (map fst l).
 Proof. exact sorted_perm_ops. Qed.
 Print Assumptions C18_sorted_perm_ops.
+
+(* cycle_iff_error, both directions (=> by the pigeonhole principle on the reported dictionary) *)
+Theorem C18_cycle_iff_error : forall s,
+  miss_before s = [] -> miss_after s = [] ->
+  ((exists l, sorted s = Cyclic l) <-> exists a, path (parcs s) a a).
+Proof. exact cycle_iff_error_state. Qed.
+Print Assumptions C18_cycle_iff_error.
+
+(* every field of a reachable state is determined by the current declarations *)
+Theorem C18_rep_reachable : forall c ops, Rep c (final_state (new_sorter c) ops) (decls_of c ops).
+Proof. exact Rep_reachable. Qed.
+Print Assumptions C18_rep_reachable.
+
+(* central statement: for every constructor flavour and every sequence of add/remove
+   calls, each answer of sorted() is accepted by the declarative judge for the
+   declarations then in force (each declared name once with its latest value, every
+   constraint between present names respected, errors only when justified), and
+   remove raises ValueError exactly for an undeclared name *)
+Theorem C18_model_judged : forall c ops, steps_ok c [] ops (run_ops (new_sorter c) ops).
+Proof. exact model_judged. Qed.
+Print Assumptions C18_model_judged.
+
+Theorem C18_sorted_respects_ops : forall c ops l,
+  sorted (final_state (new_sorter c) ops) = Sorted l ->
+  forall d, In d (decls_of c ops) ->
+    (forall u, In u (opt_list (dafter d)) -> In u (dnames (decls_of c ops)) ->
+               precedes (map fst l) u (dname d) = true) /\
+    (forall o, In o (opt_list (dbefore d)) -> In o (dnames (decls_of c ops)) ->
+               precedes (map fst l) (dname d) o = true).
+Proof. exact sorted_respects_ops. Qed.
+Print Assumptions C18_sorted_respects_ops.
+
+(* unsatisfied_iff_error over declarations: an error iff some declared item has a
+   before (after) constraint none of whose alternatives is present *)
+Theorem C18_unsatisfied_iff_error_ops : forall c ops,
+  let s := final_state (new_sorter c) ops in
+  let ds := decls_of c ops in
+  ((exists l, sorted s = UnsatBefore l) <-> unsat_before c ds <> []) /\
+  ((exists l, sorted s = UnsatAfter l) <-> unsat_before c ds = [] /\ unsat_after c ds <> []).
+Proof. exact unsatisfied_iff_error_ops. Qed.
+Print Assumptions C18_unsatisfied_iff_error_ops.
